@@ -13,7 +13,9 @@ import (
 	"fmt"
 	"io"
 	"os"
+	"os/exec"
 	"path/filepath"
+	"runtime/debug"
 	"time"
 
 	"github.com/mk6i/mkdb/sql"
@@ -25,6 +27,7 @@ type histEvent struct {
 	Q      string   `json:"q"`      // statement text
 	Then   []string `json:"then"`   // crashlog: statements run after each recovery
 	Tables []string `json:"tables"` // tables to read back
+	Seed   int      `json:"seed"`
 }
 
 type histCase struct {
@@ -48,6 +51,20 @@ type histOut struct {
 	Header  *storage.VerifHeader  `json:"header,omitempty"`
 	Crashes []histCrash           `json:"crashes,omitempty"`
 	Cache   []int                 `json:"cache,omitempty"`
+	Torn    *histTorn             `json:"torn,omitempty"`
+}
+
+type histTornCase struct {
+	Pages   []int       `json:"pages"`
+	Recover string      `json:"recover"`
+	Tables  []histTable `json:"tables"`
+}
+
+type histTorn struct {
+	Diff     []int          `json:"diff"`     // offsets of the pages the flush changed
+	New      []bool         `json:"new"`      // page lies beyond the end of the file before the flush
+	Internal []bool         `json:"internal"` // page written is an internal node
+	Cases    []histTornCase `json:"cases"`
 }
 
 type histCrash struct {
@@ -406,6 +423,113 @@ func histRunCase(c histCase) ([]histOut, error) {
 			if err := os.Chdir(h.cur); err != nil {
 				return nil, err
 			}
+		case "tornflush":
+			// flush on the live service; then every way the flush could have been cut short:
+			// the data file as before the flush plus any subset of the pages the flush changed,
+			// header unwritten (it is written last), log as it is
+			tbl := filepath.Join(h.cur, storage.VerifDataPath(histDB), "tbl")
+			pre, err := os.ReadFile(tbl)
+			if err != nil {
+				return nil, err
+			}
+			o.Res = histGuard(func() error { return h.rs.VerifFlush() })
+			post, err := os.ReadFile(tbl)
+			if err != nil {
+				return nil, err
+			}
+			ps := int(storage.VerifPageSize)
+			var diff []int
+			for off := ps; off < len(post); off += ps {
+				end := off + ps
+				if end > len(post) {
+					end = len(post)
+				}
+				var a []byte
+				if off < len(pre) {
+					e2 := end
+					if e2 > len(pre) {
+						e2 = len(pre)
+					}
+					a = pre[off:e2]
+				}
+				if string(a) != string(post[off:end]) {
+					diff = append(diff, off)
+				}
+			}
+			o.Torn = &histTorn{Diff: diff}
+			for _, off := range diff {
+				o.Torn.New = append(o.Torn.New, off >= len(pre))
+				o.Torn.Internal = append(o.Torn.Internal, post[off] == 0)
+			}
+			// subsets: all of them for up to 6 differing pages, otherwise singletons, complements
+			// of singletons, and seeded random ones
+			var subsets [][]int
+			n := len(diff)
+			if n <= 6 {
+				for m := 0; m < 1<<uint(n); m++ {
+					var sub []int
+					for b := 0; b < n; b++ {
+						if m&(1<<uint(b)) != 0 {
+							sub = append(sub, diff[b])
+						}
+					}
+					subsets = append(subsets, sub)
+				}
+			} else {
+				subsets = append(subsets, nil, diff)
+				for b := 0; b < n; b++ {
+					subsets = append(subsets, []int{diff[b]})
+					var sub []int
+					for c := 0; c < n; c++ {
+						if c != b {
+							sub = append(sub, diff[c])
+						}
+					}
+					subsets = append(subsets, sub)
+				}
+				seed := uint64(ev.Seed)*2654435761 + 12345
+				for k := 0; k < 24; k++ {
+					var sub []int
+					for b := 0; b < n; b++ {
+						seed = seed*6364136223846793005 + 1442695040888963407
+						if (seed>>33)&1 == 1 {
+							sub = append(sub, diff[b])
+						}
+					}
+					subsets = append(subsets, sub)
+				}
+			}
+			for _, sub := range subsets {
+				h.nimg++
+				img, err := histImage(h.root, h.nimg, h.cur, -1)
+				if err != nil {
+					return nil, err
+				}
+				buf := make([]byte, len(pre))
+				copy(buf, pre)
+				for _, off := range sub {
+					end := off + ps
+					if end > len(post) {
+						end = len(post)
+					}
+					if end > len(buf) {
+						buf = append(buf, make([]byte, end-len(buf))...)
+					}
+					copy(buf[off:end], post[off:end])
+				}
+				if err := os.WriteFile(filepath.Join(img, storage.VerifDataPath(histDB), "tbl"), buf, 0644); err != nil {
+					return nil, err
+				}
+				tc := histTornCase{Pages: append([]int{}, sub...)}
+				// recovery of a torn image can die with a fatal error that recover() cannot catch
+				// (unbounded recursion through a page that was never written): run it in a child
+				tc.Recover, tc.Tables = histRecoverIsolated(img, ev.Tables, h.cache)
+				o.Torn.Cases = append(o.Torn.Cases, tc)
+				os.RemoveAll(img)
+			}
+			if err := os.Chdir(h.cur); err != nil {
+				return nil, err
+			}
 		default:
 			return nil, fmt.Errorf("unknown event %q", ev.T)
 		}
@@ -415,7 +539,75 @@ func histRunCase(c histCase) ([]histOut, error) {
 	return outs, nil
 }
 
+type histRecoverReq struct {
+	Dir    string   `json:"dir"`
+	Tables []string `json:"tables"`
+	Cache  int      `json:"cache"`
+}
+
+type histRecoverResp struct {
+	Recover string      `json:"recover"`
+	Tables  []histTable `json:"tables"`
+}
+
+// histRecoverIsolated re-executes this test binary in mode "recoverimg" on one image directory
+func histRecoverIsolated(img string, tables []string, cache int) (string, []histTable) {
+	in := filepath.Join(img, "req.json")
+	out := filepath.Join(img, "resp.json")
+	b, _ := json.Marshal(histRecoverReq{Dir: img, Tables: tables, Cache: cache})
+	if err := os.WriteFile(in, append(b, '\n'), 0644); err != nil {
+		return "harness:" + err.Error(), nil
+	}
+	cmd := exec.Command(os.Args[0], "-test.run", "^TestVerifDriver$", "-test.timeout", "30s")
+	cmd.Env = append(os.Environ(), "VERIF_MODE=recoverimg", "VERIF_IN="+in, "VERIF_OUT="+out)
+	cmd.Dir = img
+	done := make(chan error, 1)
+	if err := cmd.Start(); err != nil {
+		return "harness:" + err.Error(), nil
+	}
+	go func() { done <- cmd.Wait() }()
+	select {
+	case <-done:
+	case <-time.After(40 * time.Second):
+		cmd.Process.Kill()
+		return "timeout", nil
+	}
+	rb, err := os.ReadFile(out)
+	if err != nil || len(rb) == 0 {
+		return "panic:process died during recovery (fatal error)", nil
+	}
+	var resp histRecoverResp
+	if err := json.Unmarshal(rb, &resp); err != nil {
+		return "panic:process died during recovery (fatal error)", nil
+	}
+	return resp.Recover, resp.Tables
+}
+
 func init() {
+	verifModes["recoverimg"] = func(in *bufio.Scanner, out *json.Encoder) error {
+		debug.SetMaxStack(64 << 20)
+		for in.Scan() {
+			var req histRecoverReq
+			if err := json.Unmarshal(in.Bytes(), &req); err != nil {
+				return err
+			}
+			resp := histRecoverResp{}
+			resp.Recover = histRecover(req.Dir)
+			if resp.Recover == "ok" {
+				rs2, err := storage.VerifOpenRelation(histDB, req.Cache, false)
+				if err != nil {
+					resp.Recover = "open:" + err.Error()
+				} else {
+					resp.Tables = histReadTables(rs2, req.Tables)
+					rs2.VerifAbandon()
+				}
+			}
+			if err := out.Encode(resp); err != nil {
+				return err
+			}
+		}
+		return in.Err()
+	}
 	verifModes["history"] = func(in *bufio.Scanner, out *json.Encoder) error {
 		for in.Scan() {
 			var c histCase
